@@ -426,6 +426,25 @@ def real_direction(c):
     return ["ret", fval(f(c["x1"], c["x2"], c["y1"], c["y2"]))]
 
 
+def gen_area(rng):
+    kind = rng.random()
+    vals = [0.0, 1.0, 1.0, 2.0] if kind < 0.5 else [1.0, 2.0] if kind < 0.8 else [0.0, 1.0, 2.0, 3.0, 1.00000001, 1.5]
+    pool = vals + ([NAN] if rng.random() < 0.5 else [])
+    data = grid(rng, pool, 5, 6)
+    return dict(data=data.tolist(), n=rng.choice([4, 8]))
+
+
+def line_area(c):
+    return f"af.data={farr(c['data'])} i.n={c['n']}"
+
+
+def real_area(c):
+    f = mod("xrspatial.zonal")._area_connectivity
+    d = np.array(c["data"], dtype=np.float64)
+    out = f(d, c["n"])
+    return ["ret", farr(out), farr(d)]
+
+
 # ---- the red-black status tree of viewshed.py: a case is the arrays after a random history built with the real
 # routines, plus one final operation
 VS_N = 12
@@ -560,6 +579,7 @@ SPECS = {
     "convolve2d": (gen_convolve, line_convolve, real_convolve),
     "processNumpy": (gen_process, line_process, real_process),
     "calcDirection": (gen_direction, line_direction, real_direction),
+    "areaConnectivity": (gen_area, line_area, real_area),
     "vsInsert": (gen_vs("insert"), line_vs, real_vs),
     "vsDelete": (gen_vs("delete"), line_vs, real_vs),
     "vsSearch": (gen_vs("search"), line_vs, real_vs),
